@@ -126,8 +126,10 @@ func (self *Fork) isStrictVolatile() bool {
 }
 
 func (self *Fork) partialVdrKill() (*VDRKillReport, bool) {
+	verifEvent("VdrBegin", "fork", self.fqname)
 	self.storageLock.Lock()
 	defer self.storageLock.Unlock()
+	verifEvent("VdrLocked", "fork", self.fqname)
 	if state := self.getState(); state.IsFailed() {
 		return nil, false
 	} else if state == DisabledState {
@@ -290,6 +292,7 @@ func (self *Fork) vdrKillSome(partial *PartialVdrKillReport, done bool) (*VDRKil
 	util.EnterCriticalSection()
 	defer util.ExitCriticalSection()
 	for _, fpath := range collapsedPaths {
+		verifEvent("VdrRemove", "fork", self.fqname, "path", fpath, "why", "files")
 		if err := os.RemoveAll(fpath); err != nil {
 			partial.Errors = append(partial.Errors, err.Error())
 		}
@@ -731,6 +734,7 @@ func (self *Fork) cleanSplitTemp(partial *PartialVdrKillReport) *PartialVdrKillR
 			defer util.ExitCriticalSection()
 		}
 		if td := self.split_metadata.TempDir(); td != "" {
+			verifEvent("VdrRemove", "fork", self.fqname, "path", td, "why", "split_tmp")
 			if err := os.RemoveAll(self.split_metadata.TempDir()); err != nil {
 				partial.Errors = append(partial.Errors, err.Error())
 			}
@@ -830,6 +834,7 @@ func (self *Fork) cleanChunkTemp(partial *PartialVdrKillReport) *PartialVdrKillR
 
 	for _, chunk := range self.chunks {
 		if td := chunk.metadata.TempDir(); td != "" {
+			verifEvent("VdrRemove", "fork", self.fqname, "path", td, "why", "chunk_tmp")
 			if err := os.RemoveAll(td); err != nil {
 				partial.Errors = append(partial.Errors, err.Error())
 			}
@@ -916,6 +921,7 @@ func (self *Fork) cleanJoinTemp(partial *PartialVdrKillReport) *PartialVdrKillRe
 			defer util.ExitCriticalSection()
 		}
 		if td := self.join_metadata.TempDir(); td != "" {
+			verifEvent("VdrRemove", "fork", self.fqname, "path", td, "why", "join_tmp")
 			if err := os.RemoveAll(td); err != nil {
 				partial.Errors = append(partial.Errors, err.Error())
 			}
@@ -986,6 +992,7 @@ func (self *Fork) vdrKill(partialKill *PartialVdrKillReport) *VDRKillReport {
 	defer util.ExitCriticalSection()
 	// Actually delete the paths.
 	for _, p := range killPaths {
+		verifEvent("VdrRemove", "fork", self.fqname, "path", p, "why", "chunk_files")
 		os.RemoveAll(p)
 	}
 	// update timestamp to mark actual kill time
